@@ -272,6 +272,134 @@ def world_has_13b(w):
     return any(go(r) for _, r, _ in w["docs"]) or any(go(l[1]) for l in w["loose"] if l[0] == "el")
 
 
+
+# ------------------------------------------------------------------------------------------------ independent oracle
+class ONode:
+    __slots__ = ("i", "p", "kids", "parent")
+
+    def __init__(self, i, p):
+        self.i, self.p, self.kids, self.parent = i, p, [], None
+
+
+def oracle_step(view, o):
+    """The edit `o` (ambient filter ()) as naive list surgery on the plain tree `view`, written without looking at
+    the code or at Tree/AOps.v: positions as the documentation states them.  Returns the expected view."""
+    nodes = {}
+
+    def load(t, parent):
+        n = ONode(t[0], t[1])
+        n.parent = parent
+        nodes[n.i] = n
+        n.kids = [load(k, n) for k in t[2]]
+        return n
+    docs = [([load(x, None) for x in pro], load(r, None), [load(x, None) for x in epi]) for pro, r, epi in view["docs"]]
+    loose = [load(t, None) for t in view["loose"]]
+
+    def take(n):
+        if n.parent is not None:
+            n.parent.kids.remove(n)
+            n.parent = None
+        elif n in loose:
+            loose.remove(n)
+
+    def put(parent, idx, n):
+        take(n)
+        parent.kids.insert(idx, n)
+        n.parent = parent
+
+    def realize(src, ctx):
+        if src[0] == "node":
+            return nodes[src[1]]
+        if src[0] == "str":
+            n = ONode(src[1], ("text", src[2]))
+        else:
+            c = ctx if ctx.p[0] == "tag" else ctx.parent
+            n = ONode(src[1], ("tag", c.p[1], src[2], []))
+        nodes[n.i] = n
+        return n
+    k = o[0]
+    t = nodes[o[1]]
+    if k == "follow":
+        par, ctx = t.parent, t
+        for s in o[2]:
+            n = realize(s, ctx)
+            put(par, par.kids.index(ctx) + 1, n)
+            ctx = n
+    elif k == "precede":
+        par, ctx = t.parent, t
+        for s in o[2]:
+            n = realize(s, ctx)
+            put(par, par.kids.index(ctx), n)
+            ctx = n
+    elif k in ("append", "prepend", "insert"):
+        srcs = o[3] if k == "insert" else o[2]
+        idx = len(t.kids) if k == "append" else 0 if k == "prepend" else o[2]
+        ctx = t if (not t.kids or k == "append" and not t.kids) else None
+        for j, s in enumerate(srcs):
+            if j == 0:
+                if not t.kids:
+                    c = t
+                elif idx == 0:
+                    c = t.kids[0]
+                else:
+                    c = t.kids[idx - 1]
+            else:
+                c = prev
+            n = realize(s, c)
+            put(t, idx + j, n)
+            prev = n
+    elif k == "detach":
+        if t.parent is not None:
+            par = t.parent
+            idx = par.kids.index(t)
+            take(t)
+            loose.append(t)
+            if o[2] and t.p[0] == "tag":
+                for j, c in enumerate(list(t.kids)):
+                    put(par, idx + j, c)
+    elif k == "replace":
+        par = t.parent
+        n = realize(o[2], t)
+        put(par, par.kids.index(t) + 1, n)
+        take(t)
+        loose.append(t)
+    elif k == "setitem":
+        if not t.kids and o[2] == 0:
+            n = realize(o[3], t)
+            put(t, 0, n)
+        else:
+            old = t.kids[o[2]]
+            n = realize(o[3], old)
+            put(t, t.kids.index(old) + 1, n)
+            take(old)
+            loose.append(old)
+    elif k == "delitem":
+        c = t.kids[o[2]]
+        take(c)
+        loose.append(c)
+    elif k == "content":
+        t.p = ("text", o[2])
+    elif k == "merge":
+        def merge(n):
+            out = []
+            for c in n.kids:
+                if c.p[0] == "text" and out and out[-1].p[0] == "text":
+                    out[-1].p = ("text", out[-1].p[1] + c.p[1])
+                else:
+                    out.append(c)
+                    merge(c)
+            n.kids = out
+        merge(t)
+    for n in nodes.values():
+        if n.parent is None and n not in loose and not any(n is r or n in pro or n in epi for pro, r, epi in docs):
+            loose.append(n)
+
+    def dump(n):
+        return (n.i, n.p, [dump(c) for c in n.kids])
+    return T.norm_aworld({"docs": [([dump(x) for x in pro], dump(r), [dump(x) for x in epi]) for pro, r, epi in docs],
+                          "loose": [dump(n) for n in loose]})
+
+
 def run_history(ctx, rng, n_ops, hist_no, fixed=None):
     """runs one history on the implementation; returns the record for the Coq evaluation"""
     real = Real()
@@ -313,6 +441,10 @@ def run_history(ctx, rng, n_ops, hist_no, fixed=None):
                 continue
         classes = classes_of(real, o, w, F)
         view_err = None
+        try:
+            v0 = real.view_world() if all(F) else None
+        except KeyError:
+            v0 = None
         exc = real.run(F, o)
         w1 = real.dump_world()
         try:
@@ -321,7 +453,7 @@ def run_history(ctx, rng, n_ops, hist_no, fixed=None):
             v1, view_err = None, "KeyError %s" % e
         partial = exc is not None and len(op_sources(o)) > 1    # objects made before the refusal cannot be numbered
         rec["steps"].append({"F": F, "op": o, "exc": exc, "w": w1, "view": v1, "view_err": view_err,
-                             "classes": classes, "w_before_13b": world_has_13b(w), "partial": partial})
+                             "classes": classes, "w_before_13b": world_has_13b(w), "partial": partial, "view0": v0})
         w = w1
         if exc in ("AssertionError", "AttributeError") or view_err or partial:
             break
@@ -387,6 +519,17 @@ def compare(ctx, rec, val):
             return
         if tie_broken:
             return
+        # ---- the same edit by an oracle that shares nothing with the scripts of Tree/AOps.v (ambient filter () only)
+        if st.get("view0") is not None:
+            ctx.count(1, "independent-oracle")
+            try:
+                want = st["view0"] if st["exc"] else oracle_step(st["view0"], o)
+            except Exception as e:  # noqa: BLE001  the naive edit is not defined (bad index ...): nothing to compare
+                want = None
+            if want is not None and want != st["view"]:
+                ctx.fail("tree after the call differs from the naive plain-tree edit (independent oracle)",
+                         dict(case, impl=st["view"], oracle=want), classify)
+                return
 
 
 def check_histories(ctx, recs):
